@@ -1,0 +1,24 @@
+//go:build verif
+
+// Ghost driver for /verif/govc (see /verif/DESIGN.md, "history lemmas"): an arbitrary history of JWT-bearer grants written
+// as a loop. Compiled only with the build tag verif; never called.
+package rfc7523
+
+import (
+	"context"
+
+	"github.com/ory/fosite"
+)
+
+// verifEnv decides how long the history is and supplies the token requests (any assertion, any jti).
+type verifEnv interface {
+	More() bool
+	Request() fosite.AccessRequester
+}
+
+// verifHistoryJWTBearer: any sequence of JWT-bearer token requests.
+func verifHistoryJWTBearer(ctx context.Context, env verifEnv, c *Handler, jti0 string) {
+	for env.More() {
+		_ = c.HandleTokenEndpointRequest(ctx, env.Request())
+	}
+}
